@@ -92,8 +92,10 @@ type Source struct {
 	// ErrWithData: the final chunk is returned together with the error (n>0, err!=nil)
 	ErrWithData bool
 	Closed      bool
-	ZeroReads   int // number of (0,nil) reads inserted before each data read (legal for io.Reader)
-	zr          int
+	// DataErr: read calls (1-based) that deliver their data TOGETHER with ErrInjected, once; later calls work normally
+	DataErr   map[int]bool
+	ZeroReads int // number of (0,nil) reads inserted before each data read (legal for io.Reader)
+	zr        int
 }
 
 func (s *Source) Read(p []byte) (int, error) {
@@ -135,6 +137,10 @@ func (s *Source) Read(p []byte) (int, error) {
 	c.OK = true
 	s.Calls = append(s.Calls, c)
 
+	if s.DataErr[k] {
+		s.Calls[len(s.Calls)-1].Inj = true
+		return n, ErrInjected
+	}
 	if s.ErrWithData && s.Pos >= len(s.Data) {
 		if s.FailAtEnd {
 			s.Calls[len(s.Calls)-1].Inj = true
